@@ -129,9 +129,13 @@ def lemmas(ck):
 
 CONTRACTS = [SplitSubunits]
 LEVEL = "proof"
-EXPLANATION = ("bounded run-time contract only so far: orbit relation (orientation R*Rz(360k/n), position centre + R*Rz(360k/n)*s, geom5/geom2 bookkeeping, unique ids, "
-               "integer x,y,z with |shift|<=0.5) checked on the real code for every n in the stated range; labelled bounded, never counted as proved")
-ASSUMPTIONS = ["float comparison tolerances 1e-6 (orientation matrix entries) and 1e-5 (positions)"]
+EXPLANATION = ("Motl.split_in_asymmetric_subunits on the real AST for a symbolic fold number n >= 1 given as a number, 'C<n>' or 'c<n>': generic parent row x generic subunit index k; "
+               "postconditions: n copies per parent in one block, geom5 = parent, geom2 = k+1 in 1..n, unique ids, parent fields copied, orientation matrix R Rz(360k/n), complete position centre + R Rz(360k/n) s, "
+               "integer x,y,z and |shift| <= 1/2; back-to-centre and z-axis relation as lemmas. Bounded numeric stand-in for every n of the stated range in addition.")
+ASSUMPTIONS = ["requires: subtomogram numbers identify the particles of the input list (sort_values groups the copies of one parent)",
+               "assumed contracts: pd.concat([df]*n) stacks n copies, sort_values(by=unique key) groups the copies of a parent in a block of n, np.tile(block,(N,1)) repeats the block per parent, "
+               "scipy Rotation from_euler/apply/*/as_euler (matrix semantics, as_euler returns angles of the same matrix), re.findall(r'\\d+', 'C<n>')[-1] is the digit string of n, real arithmetic; "
+               "bounded part: float comparison tolerances 1e-6 (orientation matrix entries) and 1e-5 (positions)"]
 
 
 def run(ck):
